@@ -4,7 +4,7 @@ from spec import M, finite
 import indcommon as ic
 
 PROP = "C09"
-LEAN_MODS = ["Cte.Props.C09"]
+LEAN_MODS = ["Cte.Props.C09", "Cte.Props.C09Mono"]
 HARNESS = "ind"
 N = {"quick": 250, "thorough": 6000}
 CORRESPONDENCES = ["n50_data: n50, n50_ref, walls_a, walls_c_ref, walls_c_a_ref, walls_c, walls_c_a, windows_a, windows_c, windows_c_a, vol"]
